@@ -25,13 +25,63 @@ type built struct {
 	NoType  bool
 	Raw     []byte // when set, the request bytes as is
 	Resign  bool   // re-sign after payload mutations (default true)
+	// member names written in another spelling that encoding/json still matches to the struct field
+	Respell       map[string]string // request, delta and suffix data members
+	SignedRespell map[string]string // signed data members and the members of the key inside it
+}
+
+// respelled returns a copy of m with members renamed as the table says.
+func respelled(m M, tab map[string]string) M {
+	if m == nil || len(tab) == 0 {
+		return m
+	}
+	out := M{}
+	for k, v := range m {
+		if n, ok := tab[k]; ok {
+			out[n] = v
+		} else {
+			out[k] = v
+		}
+	}
+	return out
+}
+
+// otherSpelling: a name that folds to the same field name (other case; long s and the Kelvin sign
+// fold to s and k).
+func otherSpelling(r *rand.Rand, name string) string {
+	switch r.Intn(4) {
+	case 0:
+		return strings.ToUpper(name[:1]) + name[1:]
+	case 1:
+		return strings.ToUpper(name)
+	case 2:
+		if i := strings.IndexAny(name, "sk"); i >= 0 {
+			if name[i] == 's' {
+				return name[:i] + "\u017f" + name[i+1:]
+			}
+			return name[:i] + "\u212a" + name[i+1:]
+		}
+		return strings.ToUpper(name)
+	default:
+		k := r.Intn(len(name))
+		return name[:k] + strings.ToUpper(name[k:k+1]) + name[k+1:]
+	}
 }
 
 func (b *built) sign(r *rand.Rand) string {
 	if b.Compact != "" {
 		return b.Compact
 	}
-	return opb.CompactJWS(r, b.Key, b.Headers, opb.Canon(b.Signed))
+	signed := b.Signed
+	if len(b.SignedRespell) > 0 {
+		signed = respelled(signed, b.SignedRespell)
+		for k, v := range signed {
+			if jwk, ok := v.(M); ok {
+				signed[k] = respelled(jwk, b.SignedRespell)
+			}
+		}
+	}
+	return opb.CompactJWS(r, b.Key, b.Headers, opb.Canon(signed))
 }
 
 func (b *built) request(r *rand.Rand) M {
@@ -62,6 +112,14 @@ func (b *built) request(r *rand.Rand) M {
 	}
 	if b.NoType {
 		delete(req, "type")
+	}
+	if len(b.Respell) > 0 {
+		for _, k := range []string{"delta", "suffixData"} {
+			if m, ok := req[k].(M); ok {
+				req[k] = respelled(m, b.Respell)
+			}
+		}
+		req = respelled(req, b.Respell)
 	}
 	return req
 }
